@@ -33,11 +33,11 @@ KEYS = ["tomo_id", "object_id", "class", "geom2", "geom5", "subtomo_id"]
 
 def plan(tier):
     if tier == "quick":
-        return dict(n_cases=240, shards=2, classes=CLASSES, timeout_s=600,
+        return dict(n_cases=320, shards=2, classes=CLASSES, timeout_s=600,
                     min_evals={"subset": 100, "remove": 80, "split": 80, "intersection": 80, "drop_duplicates": 80, "merge_and_renumber": 80,
                                "merge_and_drop_duplicates": 60, "renumber_particles": 60, "renumber_objects": 80, "twenty_fields": 1000,
                                "complementary": 80, "motl_invariant(icontract)": 2000})
-    return dict(n_cases=4800, shards=16, classes=CLASSES, timeout_s=3000,
+    return dict(n_cases=6400, shards=16, classes=CLASSES, timeout_s=3000,
                 min_evals={"subset": 2000, "remove": 1600, "split": 1600, "intersection": 1600, "drop_duplicates": 1600, "merge_and_renumber": 1600,
                            "merge_and_drop_duplicates": 1200, "renumber_particles": 1200, "renumber_objects": 1600, "twenty_fields": 20000,
                            "complementary": 1600, "motl_invariant(icontract)": 40000})
@@ -142,6 +142,12 @@ def gen_list(rng, n, tag0, dup_ids, tomos):
         df["subtomo_id"] = rng.integers(1, max(2, n // 2 + 1), n).astype(float)
     else:
         df["subtomo_id"] = rng.permutation(n).astype(float) + float(rng.integers(1, 30))
+    if n and rng.random() < 0.3:
+        # six- to eight-digit identifiers with neighbouring values (tomogram*1e6 + n style ids)
+        base = float(rng.choice([100000, 250000, 1000000, 17000000]))
+        df["subtomo_id"] = base + (rng.integers(0, max(2, n // 2 + 1), n) if dup_ids else rng.permutation(n)).astype(float)
+        if rng.random() < 0.5:
+            df["object_id"] = base + rng.integers(0, 4, n).astype(float)
     df["score"] = np.round(rng.uniform(0, 1, n), 3) if rng.random() < 0.5 else rng.permutation(n) / max(1, n)   # ties vs none
     for c in ("geom1", "geom4", "shift_x", "phi"):
         if n and rng.random() < 0.4:
@@ -151,7 +157,7 @@ def gen_list(rng, n, tag0, dup_ids, tomos):
     return df
 
 
-OPS = ["subset", "remove", "split", "intersection", "drop_duplicates", "merge_and_renumber", "merge_and_drop_duplicates",
+OPS = ["split_renumber_split", "subset", "remove", "split", "intersection", "drop_duplicates", "merge_and_renumber", "merge_and_drop_duplicates",
        "renumber_particles", "renumber_objects"]
 WEIGHT = {"mixed": None, "dup_ids": {"drop_duplicates": 4, "merge_and_drop_duplicates": 3, "intersection": 2},
           "with_empty": {"merge_and_renumber": 3, "merge_and_drop_duplicates": 2, "subset": 2}, "merge_heavy": {"merge_and_renumber": 5, "merge_and_drop_duplicates": 4},
@@ -258,8 +264,36 @@ def run_case(ctx, case):
             if not ctx.check("remove", same_seq(got, exp), dict(diff_witness(got, exp, label), feature=feature, values=vals)):
                 return
             model[a] = got
+        elif op == "split_renumber_split":
+            # one list object: split by id, renumber the particles in place, split by id again (state kept on the object
+            # between the two splits must not survive the renumbering)
+            ok, parts0 = ctx.call("split_by_feature", A.split_by_feature, "subtomo_id")
+            if not ok:
+                return
+            ok, _ = ctx.call("renumber_particles", A.renumber_particles)
+            if not ok:
+                return
+            exp = MA.copy()
+            exp[:, IX["subtomo_id"]] = np.arange(1, len(MA) + 1)
+            got = rows_of(A.df)
+            if not ctx.check("renumber_particles", same_seq(got, exp), diff_witness(got, exp, label)):
+                return
+            model[a] = got
+            MA = got
+            ok, parts = ctx.call("split_by_feature", A.split_by_feature, "subtomo_id")
+            if not ok:
+                return
+            prow = [rows_of(p.df) for p in parts]
+            allp = np.concatenate(prow) if prow else MA[:0]
+            w = None
+            if not same_multiset(allp, MA):
+                w = diff_witness(allp, MA, label + ": parts after renumbering do not partition the list")
+            elif any(len(set(pr[:, IX["subtomo_id"]].tolist())) != 1 for pr in prow if len(pr)):
+                w = {"what": "a part holds several ids"}
+            if not ctx.check("split", w is None, w):
+                return
         elif op == "split":
-            feature = str(rng.choice(["tomo_id", "object_id", "class"]))
+            feature = str(rng.choice(["tomo_id", "object_id", "class", "subtomo_id", "geom2"], p=[0.25, 0.25, 0.15, 0.25, 0.1]))
             ok, parts = ctx.call("split_by_feature", A.split_by_feature, feature)
             if not ok:
                 return
